@@ -133,7 +133,7 @@ def end_to_end(ctx, thorough, bind=""):
                 for k in range(6 if thorough else 3):
                     src = srcs[(cyc * 3 + k) % len(srcs)]
                     tid = 300 + cyc * 10 + k
-                    v = 1 + (k + cyc) % 2
+                    v = [1, 2, 3][(k + cyc) % 3]      # plain templates and an options template
                     base = col.stats()[name]
                     senders.send(src, col.ports[proto], c04.tpl_msg(gp, tid, v))
                     ok = e2e.wait_until(lambda: col.stats()[name]["DecodedCount"] > base["DecodedCount"], timeout=5)
